@@ -338,6 +338,10 @@ def check(an: Analysis) -> None:
     if len(defs) != 1:
         ob.fail(None, defs[1] if len(defs) > 1 else None, f"MISSING is bound {len(defs)} times at module level", mod=mod)
 
+    # ------------------------------------------------------------------ C20.6 MISSING held by a State survives copy / deepcopy of the State
+    _borrowed_c04(an)
+
+
 
 class _Falsy:
     """stands for the existing Missing instance in scenarios: it is an object, and it is falsy"""
@@ -347,3 +351,10 @@ class _Falsy:
 
 
 _OBJ = _Falsy()
+
+
+def _borrowed_c04(an: Analysis) -> None:
+    from ..engine import borrow
+    from . import c04
+
+    borrow(an, c04.check, {"C04.6": "C20.6"})
